@@ -24,7 +24,7 @@ NOT_APPLICABLE.update({
     'C06': 'not claimed: serde_json decimal/float formatting is out of reach for bounded symbolic execution; the postcard/bincode Policies part planned in DESIGN.md §7 was not built',
     'C07': 'not claimed: the only registry implementation in this repository is test code; the derive-generated async compress/decompress harnesses planned in DESIGN.md §7 were not built',
     'C17': 'sign/recover/verify consistency is 256-bit curve arithmetic (libsecp256k1 behind FFI, k256/p256/ed25519-dalek field arithmetic): out of reach for bit-blasting; the signature_format / VM glue harnesses planned in DESIGN.md §7 were not built',
-    'C19': 'not claimed: the ~45-rule validity reference and per-kind harnesses planned in DESIGN.md §7 were not built in the time available (check_common_part also reaches itertools hash sets, K5)',
+    'C19': 'not claimed: the balance half was built (harness/incrate/vm/c19_balances.rs: initial_free_balances against an exact wide-integer reference for three transaction shapes) but gives CBMC no verdict within 900 s even with concrete asset ids: the function keeps its per-asset sums in a hard-wired BTreeMap<AssetId, Word> (32-byte keys; B-tree tables with 32/64-byte keys gave no verdict anywhere in this code base, DESIGN.md 13.2); the accept/reject half (check_common_part, ~45 rules) reaches itertools hash sets (K5) and its reference was not built',
     'C20': 'not claimed: signature recovery is curve arithmetic (see C17), predicate verification is a whole-VM run; the glue harnesses planned in DESIGN.md §7 were not built',
     'C27': 'not claimed: RuntimeBalances is a hashbrown map (K5) and the TR/TRO/MINT/BURN/SMO handlers need a recording InterpreterStorage; not built in the time available',
     'C30': 'not claimed: needs an InterpreterStorage implementation that records every access (RecStorage, DESIGN.md §7); not built in the time available',
